@@ -185,18 +185,13 @@ is checked BEFORE the live file is deleted (F-33), and the live file is replaced
 theorem C17_tr_backup (s : Server) (b : Backup) (pq big : Bool) :
     DatabaseTr.backupDatabase s b pq big = backupDatabase s b pq big := by
   unfold DatabaseTr.backupDatabase backupDatabase
-  cases hc : s.canAct
-  · simp
-  · cases hbc : s.backupConfigured
-    · simp
-    · cases hft : s.ftpc
-      · simp
-      · cases hf : s.file
-        · simp
-        · simp only [Bool.not_true, Bool.false_eq_true, if_false, Option.isSome_some, Option.isNone_some]
-          cases hr : (ftpSendFile s b pq big).2.2
-          · simp only [Bool.false_eq_true, if_false]; rw [← hr]
-          · simp only [if_true]; rw [← hr]
+  dsimp only
+  generalize ftpSendFile s b pq big = r
+  obtain ⟨s', b', resp⟩ := r
+  cases hc : s.canAct <;> cases hbc : s.backupConfigured <;> cases hft : s.ftpc <;> cases hf : s.file <;>
+    simp only [Bool.not_true, Bool.not_false, Bool.false_eq_true, if_true, if_false, Option.isSome_some, Option.isNone_some,
+      Option.isSome_none, Option.isNone_none, Server.ftpcAct] <;> try rfl
+  cases resp <;> rfl
 
 /-- removing the leftover if there is one = having no leftover -/
 theorem leftover_removed (s : Server) :
@@ -223,27 +218,15 @@ theorem C17_tr_restore (s : Server) (b : Backup) (pq pr k : Bool) :
     DatabaseTr.restoreBackup s b pq pr k = restoreBackup s b pq pr k := by
   unfold DatabaseTr.restoreBackup restoreBackup
   rw [leftover_removed]
-  by_cases h1 : (!s.canAct) = true
-  · simp only [if_pos h1]
-  · simp only [if_neg h1]
-    by_cases h2 : (!s.backupConfigured) = true
-    · simp only [if_pos h2]
-    · simp only [if_neg h2]
-      by_cases h3 : s.ftpc.isNone = true
-      · have h3' : (!s.ftpc.isSome) = true := by
-          cases h : s.ftpc
-          · rfl
-          · rw [h] at h3; cases h3
-        simp only [if_pos h3, if_pos h3']
-      · have h3' : ¬ (!s.ftpc.isSome) = true := by
-          cases h : s.ftpc
-          · rw [h] at h3; exact absurd rfl h3
-          · simp
-        simp only [if_neg h3, if_neg h3']
-        generalize ftpRequestFile { s with downloads := none } b pq pr k = r
-        obtain ⟨s', resp⟩ := r
-        cases resp
-        · rfl
-        · exact restore_tail s'
+  dsimp only
+  -- the transfer is opaque from here on; then the guards (in whatever order the source asks them) are decided by cases
+  generalize ftpRequestFile { s with downloads := none } b pq pr k = r
+  obtain ⟨s', resp⟩ := r
+  cases hc : s.canAct <;> cases hbc : s.backupConfigured <;> cases hft : s.ftpc <;>
+    simp only [Bool.not_true, Bool.not_false, Bool.false_eq_true, if_true, if_false, Option.isSome_some, Option.isNone_some,
+      Option.isSome_none, Option.isNone_none, Server.ftpcAct] <;> try rfl
+  cases resp
+  · rfl
+  · exact restore_tail s'
 
 end Primaite.Database
